@@ -450,6 +450,44 @@ fn muller_case(rng: &mut Rng, rep: &mut Report) {
     }
 }
 
+/// Even quadratics s (x^2 - c) with the start triple (-a, a, 0): the parabola through the three points is
+/// the polynomial itself, its vertex is the third point (the linear coefficient of Muller's parabola is
+/// exactly zero), and the first iterate is a root. c > 0: real and complex type; c < 0: complex type.
+fn muller_symmetric_case(rng: &mut Rng, rep: &mut Report) {
+    let name = "muller_polynomial";
+    let real = rng.bool();
+    let c = if real { rng.log10(-2.0, 2.0) } else { rng.sign() * rng.log10(-2.0, 2.0) };
+    let s = rng.sign() * rng.log10(-1.0, 1.0);
+    let a = c.abs().sqrt() * rng.r(0.3, 3.0);
+    let tol = rng.log10(-10.0, -3.0);
+    let root = if c > 0.0 { C::new(c.sqrt(), 0.0) } else { C::new(0.0, (-c).sqrt()) };
+    let p = Poly { real, lead: s, roots: vec![root, -root], coef: vec![C::new(-s * c, 0.0), C::new(0.0, 0.0), C::new(s, 0.0)] };
+    probe::begin(u64::MAX);
+    let res: Guarded<Result<C, String>> = if real {
+        let lp = p.lib_real(None);
+        probe::guard(|| muller_polynomial((-a, a, 0.0), &lp, tol, 100))
+    } else {
+        let lp = p.lib_complex(None);
+        probe::guard(|| muller_polynomial((C::new(-a, 0.0), C::new(a, 0.0), C::new(0.0, 0.0)), &lp, tol, 100))
+    };
+    rep.eval();
+    rep.count("muller_polynomial/symmetric_triples_on_even_quadratics", 1);
+    let cj = || J::obj().set("routine", name).set("polynomial", p.to_json()).set("class", "even quadratic, start triple (-a, a, 0)").set("a", a).set("tol", tol).set("n_max", 100u64);
+    match res {
+        Guarded::Panic(m, l) => rep.violation(&format!("{}/panic", name), cj(), format!("panicked: '{}' at {}", m, l)),
+        Guarded::Budget => {}
+        Guarded::Ok(Err(m)) => rep.violation(&format!("{}/err-on-regular-problem", name), cj(), format!("the parabola through (-a, a, 0) is the polynomial itself, result Err({})", m)),
+        Guarded::Ok(Ok(z)) => {
+            let (pz, dpz) = p.horner(z);
+            let bound = K_TOL * tol * dpz.norm() + FLOOR * EPS * p.ptilde(z.norm());
+            rep.nontrivial(CaseHash::new("c08-mu-sym").f(c).f(s).f(a).f(tol).0);
+            if !(z.re.is_finite() && z.im.is_finite()) || !(pz.norm() <= bound) {
+                rep.violation(&format!("{}/not-a-root", name), cj().set("result_re", z.re).set("result_im", z.im), format!("|p(z)| = {:e} exceeds the bound {:e} at the returned z = {:e} + {:e} i", pz.norm(), bound, z.re, z.im));
+            }
+        }
+    }
+}
+
 fn anchor_case(rep: &mut Report, i: u64) {
     // seed-independent members of both workloads
     let mut rng = Rng::for_case(99, "c08-poly-anchor", i);
@@ -471,6 +509,10 @@ pub fn stages(ctx: &Ctx) -> Vec<Stage> {
         }),
         Stage::new("muller", tier.pick(60_000, 500_000), move |i, rep| {
             let mut rng = Rng::for_case(seed, "c08-mu", i);
+            if i % 20 == 7 {
+                muller_symmetric_case(&mut rng, rep);
+                return;
+            }
             muller_case(&mut rng, rep);
         }),
     ]
@@ -488,6 +530,7 @@ pub fn thresholds(ctx: &Ctx, rep: &Report) -> Vec<Threshold> {
     }
     t.push(Threshold { what: "newton_polynomial: exhausted caps (Err expected)".into(), required: q(1_000.0, 25_000.0), observed: rep.counter("newton_polynomial/err_expected/exhausted-cap") as f64 });
     let ok = rep.counter("muller_polynomial/near/ok_results") as f64;
+    t.push(Threshold { what: "muller_polynomial: symmetric start triples on even quadratics".into(), required: q(2_500.0, 20_000.0), observed: rep.counter("muller_polynomial/symmetric_triples_on_even_quadratics") as f64 });
     t.push(Threshold { what: "muller_polynomial: Ok results judged (points near a root)".into(), required: q(8_000.0, 200_000.0), observed: ok });
     t.push(Threshold { what: "muller_polynomial: runs from three arbitrary points (panic / non-finite only)".into(), required: q(3_000.0, 80_000.0), observed: (rep.counter("muller_polynomial/wide/ok_results") + rep.counter("muller_polynomial/wide/err_results")) as f64 });
     t
